@@ -126,6 +126,9 @@ func (w *World) setupBatched(seed int64) {
 	liq := sdk.NewCoins(lib.Coin(tokE.Alias("eth").Denom, 10_000_000))
 	lib.Must(c.App.BankKeeper.MintCoins(c.Ctx, minttypes.ModuleName, liq))
 	lib.Must(c.App.BankKeeper.SendCoinsFromModuleToModule(c.Ctx, minttypes.ModuleName, "eth", liq))
+	// ... and with the erc20 module (alias liquidity ConvertDenomToTarget draws on)
+	lib.Must(c.App.BankKeeper.MintCoins(c.Ctx, minttypes.ModuleName, liq))
+	lib.Must(c.App.BankKeeper.SendCoinsFromModuleToModule(c.Ctx, minttypes.ModuleName, erc20types.ModuleName, liq))
 	xabi := crosschaintypes.GetABI()
 	pc := lib.CrosschainPrecompile
 	max := new(big.Int).Lsh(big.NewInt(1), 200)
